@@ -254,3 +254,9 @@ class RawSmtTask(Task):
             out['results'].append({'obligation': oname, 'kind': 'lemma', 'status': status, 'backend': backend, 'seconds': round(_t.time() - t0, 3),
                                    'smt_size': len(text), **({'replay': {'confirmed': None, 'note': 'string lemma refuted by the solver (no model extraction through the CLI)'}} if status == 'refuted' else {})})
         return out
+
+
+def with_prop(spec, prop):
+    """The same function contract checked as part of another property (obligation names carry that property's id)."""
+    spec.prop = prop
+    return spec
